@@ -67,6 +67,9 @@ ERROR_CLASSES: dict[str, dict[str, Any]] = {
     "unsupported_width_imm": {"scope": "asm", "text": "lda.l #0x123456"},
     "unsupported_width_jmp": {"scope": "asm", "text": "jmp.b 0x12"},
     "branch_out_of_range": {"scope": "asm", "text": "bra far_zq\n.dw " + ", ".join(["0"] * 100) + "\nfar_zq:"},
+    # exactly one byte beyond the reach of an 8-bit displacement, in each direction
+    "branch_plus_128": {"scope": "asm", "text": "bra edge_zq\n.dw " + ", ".join(["0"] * 64) + "\nedge_zq:"},
+    "branch_minus_129": {"scope": "asm", "text": "edgeb_zq:\n.dw " + ", ".join(["0"] * 63) + "\n.db 0\nbne edgeb_zq"},
     "unmapped_bank": {"scope": "asm", "text": "*=$UNMAPPED"},
     "missing_incbin": {"scope": "asm", "text": ".incbin 'missing_zq.bin'"},
     "missing_table": {"scope": "asm", "text": ".table 'missing_zq.tbl'"},
@@ -103,6 +106,8 @@ def gen_case(cseed: int, tier: str) -> dict[str, Any]:
     if w.random() < 0.7:
         feats.discard("map")
     feats.discard("far_banks")
+    if w.random() < 0.06 and "map" not in feats:
+        feats.add("big_incbin")
     defines: list[tuple[str, str]] = []
     if "defines" in feats:
         defines = [("DEF0", w.choice(["0x12", "7", "0b101"])), ("DEF1", w.choice(["0", "1"])), ("DEF2", w.choice(["1", "2", "3"]))][: w.randrange(1, 4)]
